@@ -10,8 +10,10 @@ from .. import core, tlc
 from .. import signauth as sa
 
 HEXD = "0123456789abcdef"
-ACTIONS = ("Build", "RefusedAuthorize", "Step", "StepsDone", "RoundTrip", "SigVer", "SendSig", "Finish")
+ACTIONS = ("Build", "RefusedAuthorize", "Step", "StepsDone", "RoundTrip", "SigVer", "SendSig", "Finish",
+           "AfterAuth", "StartHistory", "HOp", "HistDone")
 MACHINERY_CLAUSES = ("OracleText", "UnknownEvent", "Stuck", "SignWithoutAuthorization",
+                     "ContentWithoutAuthorization",
                      "RoundTripWithoutAuthorization")
 
 
@@ -324,7 +326,7 @@ def run_behaviour(ctx, fx, b, tag, src):
             items.append(("step", si))
             ver_at[("step", si)] = cur_ver
     total = len(items)
-    if cont and total != b["nsigs"]:
+    if cont and total != b["nsigs"] and e.get("mode") != "history":
         raise core.MachineryError("concretiser and model disagree on the final file: %s vs %s (%s)" % (
             total, b["nsigs"], json.dumps(e)))
     h, n = sha[cur_ver[0]], cur_ver[1]
@@ -332,7 +334,25 @@ def run_behaviour(ctx, fx, b, tag, src):
     desc["total"] = total
     tool_positions = {i + 1 for i, it in enumerate(items)
                       if it[0] == "step" and steps[it[1]]["op"] in ("key", "eth")}
-    signers, auth, thr = plan_exchange(fx, rng, h, n, total, k, tool_positions)
+    history = e.get("mode") == "history"
+    if history:     # every signature of the file is a good one by its own key; devices differ per operation
+        hkeys = list(fx.keys)
+        rng.shuffle(hkeys)
+        signers, auth, thr = {i + 1: (hkeys[i], "valid") for i in range(total)}, [], 1
+    else:
+        signers, auth, thr = plan_exchange(fx, rng, h, n, total, k, tool_positions)
+    # signapp eth: in a third of the cases the Ethereum app's (r, s) has a short member
+    eth_opts = {}
+    for i, it in enumerate(items):
+        if it[0] == "step" and steps[it[1]]["op"] == "eth":
+            eth_opts[it[1]] = rng.random() < 0.4
+            if rng.random() < 0.34:
+                v = ver_at.get(it, cur_ver)
+                nk = sa.short_value_key(rng, sa.oracle_digest(sha[v[0]], v[1]), high_s=eth_opts[it[1]])
+                if nk is not None:
+                    old_key, kind = signers[i + 1]
+                    signers[i + 1] = (nk, kind)
+                    auth = [nk.pub if a == old_key.pub else a for a in auth]
     who = {it: signers[i + 1] for i, it in enumerate(items)}
 
     def signer_of(item):
@@ -357,7 +377,8 @@ def run_behaviour(ctx, fx, b, tag, src):
         if op == "key":
             t.update({"op": "key", "key": signer_of(item)[0].raw.hex()})
         elif op == "eth":
-            t.update({"op": "eth", "key": signer_of(item)[0].raw.hex(), "high_s": rng.random() < 0.4,
+            t.update({"op": "eth", "key": signer_of(item)[0].raw.hex(),
+                      "high_s": eth_opts.get(si, rng.random() < 0.4),
                       "path": rng.choice((None, "m/44'/60'/0'/0/0", "m/44'/137'/0'/0/1"))})
         elif op == "message":
             t.update({"op": "message"})
@@ -382,8 +403,77 @@ def run_behaviour(ctx, fx, b, tag, src):
                    "roundtrip": cont, "device": {"authorizers": [a.hex() for a in auth], "threshold": thr,
                                                  "cur": cur},
                    "via": rng.choice(("admin", "dongle"))})
+    if history:
+        recipe["device"] = None
+        recipe["history"] = history_ops(fx, rng, e["ops"], [signers[i + 1][0] for i in range(total)], h, n,
+                                        hkeys[total:])
+        desc["ops"] = [[o["op"], o["k"], o["cur"]] for o in e["ops"]]
     desc["via"] = recipe["via"]
     evs, info = sa.execute(recipe, ctx.scratch, tag)
+    return {"ev": evs, "desc": desc, "exc": info["exc"], "input": recipe}
+
+
+def device_for(keys, k, cur_cls, n, rng, spare):
+    """a device that reaches its threshold exactly at the k-th of the signatures by `keys` (99: never)"""
+    total = len(keys)
+    if k != 99:
+        thr = rng.randint(1, min(k, 3))
+        v = set(rng.sample(range(1, k), thr - 1)) | {k} | {p for p in range(k + 1, total + 1) if rng.random() < 0.5}
+    else:
+        v = {p for p in range(1, total + 1) if rng.random() < 0.4}
+        thr = len(v) + rng.randint(1, 2)
+    auth = [keys[p - 1].pub for p in sorted(v)] + [x.pub for x in spare[:rng.randint(0, 3)]]
+    while len(auth) < thr:
+        auth.append(sa.Key(rng).pub)
+    rng.shuffle(auth)
+    cur = rng.randrange(0, n) if (cur_cls == "below" and n > 0) else rng.randrange(n, 65536)
+    return {"authorizers": [a.hex() for a in auth], "threshold": thr, "cur": cur}
+
+
+def history_ops(fx, rng, ops, keys, h, n, spare):
+    keys = list(keys)
+    spare = list(spare)
+    out = []
+    for o in ops:
+        if o["op"] == "auth_new":
+            out.append({"op": "auth", "device": device_for(keys, o["k"], o["cur"], n, rng, spare)})
+        elif o["op"] == "auth_same":
+            out.append({"op": "auth", "same": True})
+        elif o["op"] == "add":
+            key = spare.pop() if spare else sa.Key(rng)
+            keys.append(key)
+            out.append({"op": "add", "sig": make_sig(key, "valid", h, n, rng)})
+        elif o["op"] == "add_bad":
+            g = make_sig(fx.key(), "valid", h, n, rng)
+            out.append({"op": "add", "sig": sa.malform(bytes.fromhex(g), rng.choice(sa.MALFORMED_KINDS), rng)})
+        else:
+            out.append({"op": o["op"]})
+    return out
+
+
+def run_admin_twice(ctx, fx, tag):
+    """do_authorize_signer twice in one process on the same file: second run against the same device
+    (answers SIGVER with an error) or a new one; the file on disk is what it was."""
+    rng = ctx.rng
+    hin = make_hash("lower", rng)      # the file on disk is compared verbatim afterwards
+    n = mid_value(rng)
+    m = rng.randint(0, 4)
+    keys = list(fx.keys)
+    rng.shuffle(keys)
+    h = hin["raw"]
+    sigs = [make_sig(keys[i], "valid", h, n, rng) for i in range(m)]
+    k1 = rng.choice([99] + list(range(1, m + 1)))
+    k2 = rng.choice([99] + list(range(1, m + 1)))
+    same = rng.random() < 0.4
+    d1 = device_for(keys[:m], k1, rng.choice(("below", "below", "notbelow")) if k1 == 99 else "below", n, rng,
+                    keys[m:])
+    d2 = {"same": True} if same else device_for(keys[:m], k2, "below", n, rng, keys[m:])
+    recipe = {"src": "file", "hash": hash_rec(hin), "iter": {"form": "int", "val": n, "s": ""}, "sigs": sigs,
+              "tools": [], "roundtrip": False, "device": None, "admin_twice": [d1, d2]}
+    evs, info = sa.execute(recipe, ctx.scratch, tag)
+    desc = {"hcls": hin["cls"], "icls": "int_mid", "m": m, "total": m, "mut": "none", "kind": "?", "tool": "?",
+            "cur": "below", "k": k1, "src": "admin-twice", "ops": [["admin", k1, "new"],
+                                                                  ["admin", k2, "same" if same else "new"]]}
     return {"ev": evs, "desc": desc, "exc": info["exc"], "input": recipe}
 
 
@@ -411,6 +501,10 @@ def signature(clause, t, ev=None):
         return "%s|tool=%s" % (clause, d.get("tool"))
     if clause in ("RoundTrip", "RoundTripStable"):
         return "%s|hash=%s iteration=%s m=%s" % (clause, d["hcls"], d["icls"], d["m"])
+    if clause in ("ObjectUnchanged", "SameAsFreshLoad") or "ops" in d:
+        ops = d.get("ops") or []
+        nb = t.get("ops_before")
+        return "%s|after=%s" % (clause, "+".join(o[0] for o in (ops if nb is None else ops[:nb])) or "none")
     total, kk = d.get("total", d["m"]), d.get("k")
     mcls = "0" if total == 0 else "1" if total == 1 else "2+"
     kcls = "never" if kk in (99, None, 0) else "last" if kk == total else "first" if kk == 1 else "middle"
@@ -574,6 +668,8 @@ def select(ctx, behaviours, quota):
         keys = [("h", e["hcls"]), ("i", e["icls"]), ("mut", e["mut"], e["kind"], e["at"]),
                 ("tool", e["tool"], e["m"], e["kind"] if e["tool"] == "manual_spell" else ""),
                 ("nsteps", e["mut"], len(e["steps"]))] + [
+                ("ops",) + tuple((o["op"], "never" if o["k"] == 99 else "first" if o["k"] == 1 else "last", o["cur"])
+                                 for o in e["ops"][:2]) + (len(e["ops"]), e["m"] > 0)] + [
                 ("step", i, st["op"], st["args"], st["file"], st["ok"]) for i, st in enumerate(e["steps"])] + [
                 ("pair", e["steps"][i]["op"], e["steps"][i]["args"], e["steps"][i + 1]["op"],
                  e["steps"][i + 1]["args"]) for i in range(len(e["steps"]) - 1) if i == 0] + [
@@ -646,7 +742,7 @@ def corruptions(traces):
         e = copy.deepcopy(t["ev"])
         del e[auth_idx(t)[-1]]
         add(t, e, "AllSentBeforeFailing", "last SIGN exchange dropped from a failed authorization")
-    t = first(lambda t: not done(t) and len(auth_idx(t)) >= 2 and t["ev"][-1]["exc"] == "HSM2DongleError")
+    t = first(lambda t: not done(t) and len(auth_idx(t)) >= 2 and t["ev"][-1].get("exc") == "HSM2DongleError")
     if t:
         e = copy.deepcopy(t["ev"])
         e[-1]["exc"] = "ValueError"
@@ -662,6 +758,17 @@ def corruptions(traces):
         e = copy.deepcopy(t["ev"])
         [x for x in e if x["k"] == "sign" and x["via"] in ("key", "eth") and x["ok"] == "t"][0]["verifies"] = "f"
         add(t, e, "SignatureVerifies", "tool signature does not verify")
+    t = first(lambda t: any(x["k"] == "content" and len(x["sigs"]) >= 1 for x in t["ev"]))
+    if t:
+        e = copy.deepcopy(t["ev"])
+        [x for x in e if x["k"] == "content" and len(x["sigs"]) >= 1][0]["sigs"].pop(0)
+        add(t, e, "ObjectUnchanged", "the object's content lost its first signature")
+    t = first(lambda t: any(x["k"] == "outcome" and x.get("fresh") in ("t", "f") for x in t["ev"]))
+    if t:
+        e = copy.deepcopy(t["ev"])
+        x = [x for x in e if x["k"] == "outcome" and x.get("fresh") in ("t", "f")][0]
+        x["fresh"] = "f" if x["fresh"] == "t" else "t"
+        add(t, e, "SameAsFreshLoad", "a freshly loaded copy ends the operation differently")
     t = first(lambda t: t["ev"][0]["k"] == "build" and any(
         x["k"] == "sign" and x["via"] in ("key", "eth") and x["ok"] == "t" for x in t["ev"][:2]))
     if t:
@@ -681,8 +788,13 @@ def brief(inp):
     return {"src": inp["src"], "hash": h["s"] if h["kind"] == "str" else repr(h.get("py")),
             "iteration": sa.py_iter(it), "signatures": len(inp["sigs"]),
             "tools": [t["op"] for t in inp.get("tools", [])], "via": inp.get("via"),
+            "history": [dict(o, device={"threshold": o["device"]["threshold"],
+                                        "current_iteration": o["device"]["cur"]}) if "device" in o else o
+                        for o in (inp.get("history") or [])] or [
+                {"same": True} if o.get("same") else {"threshold": o["threshold"], "current_iteration": o["cur"]}
+                for o in (inp.get("admin_twice") or [])],
             "device": {"threshold": inp["device"]["threshold"], "current_iteration": inp["device"]["cur"],
-                       "authorizers": len(inp["device"]["authorizers"])}}
+                       "authorizers": len(inp["device"]["authorizers"])} if inp.get("device") else None}
 
 
 def judge(res, traces, shards):
@@ -722,6 +834,9 @@ def judge(res, traces, shards):
             si = sum(1 for x in t["ev"][:at] if x["k"] == "sign") - 1
             if si < len(tt["desc"]["steps"]):
                 tt = dict(tt, failing_step=tt["desc"]["steps"][si])
+        if "ops" in tt["desc"] and 0 < at <= len(t["ev"]):
+            tt = dict(tt, ops_before=sum(1 for x in t["ev"][:at] if x["k"] in ("begin", "add") or (
+                x["k"] == "content" and x["via"] != "reload")))
         evk = t["ev"][at - 1]["k"] if 0 < at <= len(t["ev"]) else "?"
         res.violation(signature(v["clause"], tt, t["ev"][at - 1] if 0 < at <= len(t["ev"]) else None),
                       "%s broken at event %s (%s) of a %s execution: classes %s; input %s" % (
@@ -798,7 +913,7 @@ def run(ctx):
     lap("tlc_generate")
     # 3. replay on the real code
     fx = Fixture(ctx.rng)
-    order = select(ctx, behaviours, ctx.pick(1000, len(behaviours)))
+    order = select(ctx, behaviours, ctx.pick(1100, len(behaviours)))
     traces, drift = [], 0
     for bi in order:
         b = behaviours[bi]
@@ -811,6 +926,9 @@ def run(ctx):
                 t["drift"] = {"model": b["hist"], "code": hist}
             traces.append(t)
     res.coverage["executions_of_model_behaviours"] = len(traces)
+    res.coverage["object_histories_replayed"] = sum(1 for t in traces if "ops" in t["desc"])
+    res.coverage["signapp_sessions_replayed"] = sum(1 for t in traces if len(t["desc"]["steps"]) >= 2
+                                                    or any(st[1] != "none" for st in t["desc"]["steps"]))
     res.coverage["spellings_replayed"] = {
         "signature_in_file": sorted({t["desc"]["kind"] for t in traces if t["desc"]["mut"] == "sigspell"}),
         "signature_manual": sorted({t["desc"]["kind"] for t in traces if t["desc"]["tool"] == "manual_spell"}),
@@ -835,6 +953,10 @@ def run(ctx):
     lap("random")
     res.coverage["random_pipelines"] = n_rand
     res.coverage["random_authorised"] = sum(1 for t in rtraces if t["ev"][-1]["authorized"] == "t")
+    # 4b. do_authorize_signer twice in one process on the same file
+    atraces = [run_admin_twice(ctx, fx, "a%d" % i) for i in range(ctx.pick(40, 600))]
+    res.coverage["admin_twice_runs"] = len(atraces)
+    lap("admin_twice")
     # 5. iteration sweep
     if ctx.quick:
         lo = ctx.rng.randrange(0, 65536 - 1024)
@@ -849,7 +971,9 @@ def run(ctx):
         t["label"] = "random"
     for t in sw:
         t["label"] = "iteration-sweep"
-    judge(res, traces + rtraces + sw + corruptions(traces), ctx.pick(3, 8))
+    for t in atraces:
+        t["label"] = "admin-twice"
+    judge(res, traces + rtraces + atraces + sw + corruptions(traces), ctx.pick(3, 8))
     lap("validate")
     res.coverage["iterations_swept"] = sum(1 for t in sw for e in t["ev"] if e["k"] == "build")
     res.coverage["iterations_swept_authorised"] = sum(1 for t in sw for e in t["ev"]
